@@ -38,6 +38,13 @@ def run(pid, mod, chk, max_mutants=None):
         d = subprocess.run(["git", "-C", real_repo, "diff", "HEAD"], stdout=subprocess.PIPE, check=True).stdout
         if d.strip():
             subprocess.run(["git", "-C", wt, "apply", "--whitespace=nowarn"], input=d, check=True)
+        # warm start: reuse the compiled third-party dependencies of the real cache (workspace members are recompiled through the driver
+        # because their paths differ; facts are never copied)
+        for cfg in os.listdir(real_cache) if os.path.isdir(real_cache) else []:
+            src = os.path.join(real_cache, cfg, "target")
+            if os.path.isdir(src):
+                os.makedirs(os.path.join(scratch, "cache", cfg), exist_ok=True)
+                subprocess.run(["cp", "-a", "--reflink=auto", src, os.path.join(scratch, "cache", cfg, "target")], check=False)
         build.set_repo(wt, os.path.join(scratch, "cache"))
         for m in muts[:max_mutants]:
             t0 = time.time()
